@@ -68,6 +68,9 @@ def modutf7_decode(data: bytes) -> str:
     Args:
         data: The encoded bytestring to decode.
 
+    Raises:
+        UnicodeError: The bytestring is not valid modified UTF-7.
+
     """
     parts = []
     is_usascii = True
@@ -93,6 +96,9 @@ def modutf7_decode(data: bytes) -> str:
                     buf = buf[i + 1:]
                     is_usascii = True
                     break
+            else:
+                # unterminated shift sequence, decoded below
+                break
     if not is_usascii:
         to_decode = buf.tobytes()
         decoded = _modified_b64decode(to_decode)
